@@ -25,7 +25,7 @@ import (
 func init() {
 	engines["res"] = engineDef{
 		newEngine: func() Engine { return &resEngine{} },
-		newGen:    func(r *RNG, tier string, profile string) Generator { return newResGen(r, tier) },
+		newGen:    func(r *RNG, tier string, profile string) Generator { return newResGen(r, tier, profile) },
 	}
 }
 
@@ -220,7 +220,13 @@ func (e *resEngine) Exec(op *Op) string {
 		}
 		// contents survive the reopen
 		lost := 0
-		st2, err := store.OpenStore(context.Background(), store.MultihashPrimary, dp, ip, false, store.IndexBitSize(8), store.IndexFileSize(64), store.PrimaryFileSize(128), store.GCInterval(0), store.SyncInterval(time.Hour))
+		// the reopen may ask for another bucket bit size: the index is then translated inside OpenStore (private file caches,
+		// old files moved aside and unlinked)
+		bits2 := 8
+		if b, err := strconv.Atoi(op.Arg("bits2")); err == nil && b > 0 {
+			bits2 = b
+		}
+		st2, err := store.OpenStore(context.Background(), store.MultihashPrimary, dp, ip, false, store.IndexBitSize(uint8(bits2)), store.IndexFileSize(64), store.PrimaryFileSize(128), store.GCInterval(0), store.SyncInterval(time.Hour))
 		reopen := "ok"
 		if err != nil {
 			reopen = "err"
@@ -303,13 +309,169 @@ func (e *resEngine) Exec(op *Op) string {
 			}
 		}
 		return fmt.Sprintf("open=%s goroutines=%d fds=%d intact=%s", res, gor, fds, intact)
+	case "rpar":
+		// free-running (truly parallel) lookups of keys that nothing mutates, next to mutators of OTHER keys and an explicit
+		// flusher: every lookup must find its key with its value.  A search for a concrete failing execution inside windows that
+		// contain no hook point (used next to the lockset obligation over the data path); not a proof of anything.
+		e.fresh()
+		nkeys, _ := strconv.Atoi(op.Arg("keys"))
+		readers, _ := strconv.Atoi(op.Arg("readers"))
+		ms, _ := strconv.Atoi(op.Arg("ms"))
+		seed, _ := strconv.Atoi(op.Arg("seed"))
+		writers, _ := strconv.Atoi(op.Arg("writers"))
+		dp, ip := e.paths()
+		st, err := store.OpenStore(context.Background(), store.MultihashPrimary, dp, ip, false, store.IndexBitSize(8), store.IndexFileSize(4096), store.PrimaryFileSize(8192),
+			store.FileCacheSize(8), store.GCInterval(0), store.SyncInterval(time.Hour))
+		if err != nil {
+			return "open=err"
+		}
+		r := NewRNG(uint64(seed))
+		keyOf := func(i int) []byte {
+			return mkMultihash(0x12, []byte{byte(i), byte(i >> 8), byte(r.Intn(256)), byte(r.Intn(256)), 3, 1, byte(i * 7), byte(i * 13)})
+		}
+		keys := make([][]byte, nkeys)
+		vals := make([][]byte, nkeys)
+		for i := range keys {
+			keys[i] = keyOf(i)
+			vals[i] = make([]byte, 4+r.Intn(24))
+			for j := range vals[i] {
+				vals[i][j] = byte(r.Intn(256))
+			}
+			if err := st.Put(keys[i], vals[i]); err != nil {
+				st.Close()
+				return "prep=put-err"
+			}
+		}
+		st.Flush()
+		// one more flush of another bucket so that the lists above exist only in the files
+		other := mkMultihash(0x12, []byte{0xfe, 0xff, 9, 9, 9, 9, 9, 9})
+		st.Put(other, []byte("other"))
+		st.Flush()
+		var wg sync.WaitGroup
+		var mu sync.Mutex
+		wrong, lookups := 0, 0
+		first := ""
+		stop := make(chan struct{})
+		for g := 0; g < readers; g++ {
+			g := g
+			wg.Add(1)
+			go func() {
+				defer wg.Done()
+				rr := NewRNG(uint64(seed*131 + g))
+				n, bad := 0, 0
+				fw := ""
+				for {
+					select {
+					case <-stop:
+						mu.Lock()
+						lookups += n
+						wrong += bad
+						if first == "" {
+							first = fw
+						}
+						mu.Unlock()
+						return
+					default:
+					}
+					i := g + readers*rr.Intn((nkeys+readers-1)/readers)
+					if i >= nkeys {
+						continue
+					}
+					n++
+					switch rr.Intn(3) {
+					case 0:
+						v, found, err := st.Get(keys[i])
+						if err != nil || !found || hex.EncodeToString(v) != hex.EncodeToString(vals[i]) {
+							bad++
+							if fw == "" {
+								fw = fmt.Sprintf("get:%s:found=%v:err=%v", hex.EncodeToString(keys[i]), found, err != nil)
+							}
+						}
+					case 1:
+						found, err := st.Has(keys[i])
+						if err != nil || !found {
+							bad++
+							if fw == "" {
+								fw = fmt.Sprintf("has:%s:found=%v:err=%v", hex.EncodeToString(keys[i]), found, err != nil)
+							}
+						}
+					default:
+						sz, found, err := st.GetSize(keys[i])
+						if err != nil || !found || int(sz) != len(vals[i]) {
+							bad++
+							if fw == "" {
+								fw = fmt.Sprintf("size:%s:found=%v:err=%v", hex.EncodeToString(keys[i]), found, err != nil)
+							}
+						}
+					}
+				}
+			}()
+		}
+		werr := 0
+		for w := 0; w < writers; w++ {
+			w := w
+			wg.Add(1)
+			go func() {
+				defer wg.Done()
+				rr := NewRNG(uint64(seed*977 + w))
+				// keys of this writer only: digests that start with 0xfd, w
+				for j := 0; ; j++ {
+					select {
+					case <-stop:
+						return
+					default:
+					}
+					k := mkMultihash(0x12, []byte{0xfd, byte(w), byte(rr.Intn(6)), 1, 2, 3, 4, 5})
+					if rr.Bool(70) {
+						v := make([]byte, 1+rr.Intn(30))
+						if err := st.Put(k, v); err != nil {
+							mu.Lock()
+							werr++
+							mu.Unlock()
+						}
+					} else if _, err := st.Remove(k); err != nil {
+						mu.Lock()
+						werr++
+						mu.Unlock()
+					}
+					if j%16 == 0 {
+						st.Flush()
+					}
+				}
+			}()
+		}
+		time.Sleep(time.Duration(ms) * time.Millisecond)
+		close(stop)
+		wg.Wait()
+		// the writers' keys never hid a reader's key for good either
+		after := 0
+		for i := range keys {
+			v, found, err := st.Get(keys[i])
+			if err != nil || !found || hex.EncodeToString(v) != hex.EncodeToString(vals[i]) {
+				after++
+			}
+		}
+		st.Close()
+		if first == "" {
+			first = "none"
+		}
+		some := 0
+		if lookups > 0 {
+			some = 1
+		}
+		return fmt.Sprintf("open=ok ran=%d wrong=%d after=%d writererrs=%d first=%s", some, wrong, after, werr, first)
 	case "rcycles":
 		e.fresh()
 		n, _ := strconv.Atoi(op.Arg("n"))
 		dp, ip := e.paths()
 		maxG, maxF := 0, 0
+		alt := op.Arg("alt") == "1"
 		for i := 0; i < n; i++ {
-			st, err := store.OpenStore(context.Background(), store.MultihashPrimary, dp, ip, false, store.IndexBitSize(8), store.IndexFileSize(64), store.PrimaryFileSize(128),
+			bits := uint8(8)
+			if alt && i%2 == 1 {
+				bits = 11 // every other cycle translates the index to another bucket bit size, and the next one back
+			}
+			st, err := store.OpenStore(context.Background(), store.MultihashPrimary, dp, ip, false, store.IndexBitSize(bits), store.IndexFileSize(64), store.PrimaryFileSize(128),
 				store.GCInterval(10*time.Millisecond), store.SyncInterval(3*time.Millisecond))
 			if err != nil {
 				return "open=err at " + strconv.Itoa(i)
@@ -357,18 +519,28 @@ var gcParkPoints = []string{"none", "primary.gc.start", "primary.gc.tgc_done", "
 	"index.gc.unlinked", "freelist.togc.flushed", "freelist.togc.closed", "freelist.togc.renamed", "freelist.togc.reopened",
 	"store.flush.stamped", "store.flush.checked", "store.commit.primary_done", "store.commit.index_done", "index.flush.swapped", "primary.flush.swapped"}
 
-func newResGen(r *RNG, tier string) *resGen {
+func newResGen(r *RNG, tier string, profile string) *resGen {
 	g := &resGen{}
+	if profile == "par" {
+		ms := 250
+		if tier == "thorough" {
+			ms = 2500
+		}
+		g.ops = append(g.ops, mkOp("rpar", "keys", strconv.Itoa(64+r.Intn(200)), "readers", strconv.Itoa(4+r.Intn(8)), "writers", strconv.Itoa(r.Intn(3)),
+			"ms", strconv.Itoa(ms), "seed", strconv.Itoa(r.Intn(1<<20))))
+		return g
+	}
+	bits2 := func() string { return []string{"8", "8", "8", "9", "12", "16"}[r.Intn(6)] }
 	switch r.Pick(50, 15, 30, 5) {
 	case 0:
 		g.ops = append(g.ops, mkOp("rcycle", "mode", "bg", "work", strconv.Itoa(20+r.Intn(80)), "seed", strconv.Itoa(r.Intn(1<<20)),
-			"park", gcParkPoints[r.Intn(len(gcParkPoints))]))
+			"park", gcParkPoints[r.Intn(len(gcParkPoints))], "bits2", bits2()))
 	case 1:
-		g.ops = append(g.ops, mkOp("rcycle", "mode", "plain", "work", strconv.Itoa(5+r.Intn(40)), "seed", strconv.Itoa(r.Intn(1<<20)), "park", "none"))
+		g.ops = append(g.ops, mkOp("rcycle", "mode", "plain", "work", strconv.Itoa(5+r.Intn(40)), "seed", strconv.Itoa(r.Intn(1<<20)), "park", "none", "bits2", bits2()))
 	case 2:
 		g.ops = append(g.ops, mkOp("rfailopen", "kind", []string{"idxsize", "prisize", "bits+size", "badjson", "badprijson", "badbits"}[r.Intn(6)]))
 	default:
-		g.ops = append(g.ops, mkOp("rcycles", "n", strconv.Itoa(8+r.Intn(10))))
+		g.ops = append(g.ops, mkOp("rcycles", "n", strconv.Itoa(8+r.Intn(10)), "alt", strconv.Itoa(r.Intn(2))))
 	}
 	return g
 }
